@@ -69,6 +69,8 @@ Definition mismatch (c : case_t) : bool :=
      - DB.Set / Delete: the one operation the leaseholder created, on the leaseholder's node;
      - a subscriber that stopped keeping up (SStall: its handler blocks, its buffers overflow) is
        outside the property from then on; every OTHER subscriber must still be handed everything;
+     - an ingress transaction the engine refused to commit (SFaulty) changed nothing: nothing is
+       expected from it and nothing may be delivered; the later redelivery counts as usual;
      - recovery writes below the observers (it runs inside kv.Open, before any subscriber can
        exist): nothing is expected from it and nothing may be delivered.
    With IgnoreHostLeaseholder the expected changes are those NOT led by the host (leaseholder of the
@@ -94,7 +96,7 @@ Definition obs_digests (o : obs) (n : N) : gmap N (Z * N) :=
   list_to_map (map (fun x => (o_key x, (o_ver x, o_lh x))) (obs_eng_ops o n)).
 
 (* operations that changed node n's state in this step, per the rule on the observed pre-state *)
-Definition expected_at (po no : obs) (msgs : list (list op)) (s : step_t) (n : N) : list op :=
+Definition expected_plain (po no : obs) (msgs : list (list op)) (s : step_t) (n : N) : list op :=
   match s with
   | SWrite _ k v _ =>
       match filter (fun r => (rn_ctr r =? obs_ctr po (rn_key r) + 1)%Z) (ob_nodes no) with
@@ -118,6 +120,19 @@ Definition expected_at (po no : obs) (msgs : list (list op)) (s : step_t) (n : N
         end
       else []
   | _ => []
+  end.
+
+(* a transaction that fails to commit stores nothing: nobody may be told anything about it *)
+Definition expected_at (po no : obs) (msgs : list (list op)) (s : step_t) (n : N) : list op :=
+  match s with
+  | SFaulty fn g =>
+      if fn =? n then [] else
+      expected_plain po no msgs (match g with
+                                 | GInject a b c => SInject a b c
+                                 | GDeliver a b => SDeliver a b
+                                 | GRound a b c => SRound a b c
+                                 end) n
+  | _ => expected_plain po no msgs s n
   end.
 
 Definition chg_eqb (a b : chg) : bool := bool_decide (a = b).
